@@ -718,7 +718,7 @@ def expand(unit_path, twin=False, repo=None):
     repo = repo or REPO
     w = Woven()
     lines = open(unit_path).read().split("\n")
-    flags = {"f32": False, "fmt": False, "strlit": False, "inspect_err": False, "strmatch": False}
+    flags = {"f32": False, "fmt": False, "strlit": False, "inspect_err": False, "strmatch": False, "plain": False}
     w.flags = flags
     src_cache = {}
     i = 0
@@ -886,7 +886,15 @@ def expand(unit_path, twin=False, repo=None):
                 fn_label = fn_label + "#" + frag_name
             item_index = len(w.items)
             start_line = w.cur_line()
-            if it.kind == "fn":
+            if it.kind == "fn" and flags.get("plain"):
+                # K-units: plain Rust for Kani - the item text as extracted (after the listed
+                # rewrites), preceded by the attribute lines of the template
+                if spec.sections or spec.loops:
+                    raise WeaveError("verus contract sections in a plain unit: %s" % fn_label)
+                for a in spec.extra_attrs:
+                    w.add(a)
+                w.add(text)
+            elif it.kind == "fn":
                 weave_fn(w, spec, text, fn_label, item_index, twin)
             else:
                 if spec.sections or spec.loops:
